@@ -638,6 +638,26 @@ def zoo(tier='quick'):
     p.params += [('PR.PTF', 'TaxRate')]
     p.features.add('two-tax-flows')
     Z.append(p)
+    # a rule-based supplier whose rule is stated a second time (AddSupplier called again for the same supplier, to revise the rule)
+    p = Plan('samezone_supplier_rule_restated')
+    economy(p, 'AA', 'XXD', firm='multi', free_xr=False)
+    economy(p, 'BB', 'XXD', gov='none', firm='multi', free_xr=False)
+
+    def restated_post(c):
+        mk = c['AA.GOOD']
+        y = c['AA.HH'].GetVariableName('INC')
+        mk.AddSupplier(c['BB.BUS'], '0.3*{0}'.format(y))
+        mk.AddSupplier(c['BB.BUS'], '0.1*{0}'.format(y))
+        c['BB.BUS'].AddMarket(mk)
+    p.post(restated_post)
+    p.features.add('imports')
+    Z.append(p)
+    # money issued by a sector that keeps no balance sheet of its own (has_F=False), e.g. a mint
+    p = single('sim_mm_issuer_without_ledger')
+    p.decl('CA.MINT', lambda c: Sector(c['CA'], c.nm('MINT'), has_F=False), group='CA')
+    p.decl('CA.MON', lambda c: sd.MoneyMarket(c['CA'], issuer_short_code=c.nm('MINT')), group='CA', kind='market')
+    p.features.add('mm')
+    Z.append(p)
     Z.append(two_zone('xz_gold_mixed', dict(gov='gold_gov', mm=True), dict(gov='cons', caps=True, firm='fm1'),
                       [G('AA.HH', 'BB.CAP'), G('BB.HH', 'AA.HH')]))
     # flows whose source / target are firms and governments (not only households), within and across zones
